@@ -428,7 +428,9 @@ func walkELF(path string, seen map[string]bool, w *bufio.Writer) (textStats, err
 				}
 			} else {
 				// boundary-only judgement against the independent rule
-				if g.err == "ok" && g.len == n && g.op != "Op(0)" {
+				// (a legacy mnemonic for a VEX-encoded instruction is the fallback defect even when the length happens to coincide:
+				//  c5 fd 74 c1 VPCMPEQB is reported as "JE rel8" with a PC-relative field)
+				if g.err == "ok" && g.len == n && g.op != "Op(0)" && (!isVEX || strings.HasPrefix(g.op, "V")) {
 					st.agree++
 					st.boundaryOnly++
 				} else {
